@@ -640,6 +640,52 @@ func c03ModuleLevel(r *fw.Rec) {
 	c03CheckModule(r, "module-level", m)
 	c03BlockAddresses(r)
 	c03AddrSpaces(r)
+	c03NamedAliases(r)
+}
+
+// c03NamedAliases builds with named non-struct types (`%T = type i32*`,
+// `%I = type i32`, `%V = type <2 x i32>`): the name is an alias of its body, so
+// a value of type %T is a well-typed operand wherever i32* is, and the other way
+// round; no constructor may reject the mix.
+func c03NamedAliases(r *fw.Rec) {
+	m := ir.NewModule()
+	// (defined in the order of their names, the order the parser keeps them in)
+	I := m.NewTypeDef("I", types.NewInt(32))
+	S := m.NewTypeDef("S", types.NewStruct(types.NewPointer(types.I32), types.I32))
+	T := m.NewTypeDef("T", types.NewPointer(types.I32))
+	V := m.NewTypeDef("V", types.NewVector(2, types.I32))
+	pp := types.NewPointer(types.NewPointer(types.I32))
+	f := m.NewFunc("f", types.I32, ir.NewParam("p", T), ir.NewParam("q", pp), ir.NewParam("r", types.NewPointer(I)), ir.NewParam("i", I), ir.NewParam("v", V), ir.NewParam("s", S))
+	b := f.NewBlock("entry")
+	steps := []struct {
+		name string
+		fn   func()
+	}{
+		{"store-named-pointer-into-pointer-slot", func() { b.NewStore(f.Params[0], f.Params[1]) }},
+		{"store-pointer-to-named-int-into-pointer-slot", func() { b.NewStore(f.Params[2], f.Params[1]) }},
+		{"store-named-int-through-named-pointer", func() { b.NewStore(f.Params[3], f.Params[0]) }},
+		{"store-int-through-pointer-to-named-int", func() { b.NewStore(ci(types.I32, 5), f.Params[2]) }},
+		{"insertvalue-named-pointer-into-struct", func() { b.NewInsertValue(f.Params[5], f.Params[0], 0) }},
+		{"insertvalue-named-int-into-struct", func() { b.NewInsertValue(f.Params[5], f.Params[3], 1) }},
+		{"insertelement-named-int-into-named-vector", func() { b.NewInsertElement(f.Params[4], f.Params[3], ci(types.I32, 0)) }},
+		{"icmp-named-pointer-with-pointer", func() { b.NewICmp(enum.IPredEQ, f.Params[0], f.Params[2]) }},
+		{"select-named-and-plain", func() { b.NewSelect(constant.True, f.Params[0], f.Params[2]) }},
+		{"add-named-int-and-int", func() { b.NewAdd(f.Params[3], ci(types.I32, 1)) }},
+		{"phi-free-gep-on-named-pointer", func() { b.NewGetElementPtr(types.I32, f.Params[0], ci(types.I64, 1)) }},
+		{"load-through-named-pointer", func() { b.NewLoad(types.I32, f.Params[0]) }},
+	}
+	for _, st := range steps {
+		r.Eval(1)
+		if p, msg, stack := fw.Guard(st.fn); p {
+			r.Violate(fw.Violation{Key: "constructor-panics/named-alias/" + st.name, What: fmt.Sprintf("a well-typed construction with a named non-struct type (%s) is rejected by a constructor: %s", st.name, firstLine(msg)), Observed: trimStack(stack)})
+			continue
+		}
+		r.Tally("constructors", "named-alias:"+st.name)
+	}
+	b.NewRet(f.Params[3])
+	if p, msg, _ := fw.Guard(func() { c03CheckModule(r, "named-alias-types", m) }); p {
+		r.Violate(fw.Violation{Key: "constructor-panics/named-alias-types", What: firstLine(msg)})
+	}
 }
 
 // c03AddrSpaces sets the address space of a global, a function and an alloca
